@@ -285,6 +285,9 @@ def run(prog, R):
                     R.add('UNIT-3', b, 'consume#%d:all-offsets-shifted' % (ci + 1), not missing and not wrong, site(b, ct.line),
                           'offsets rewritten after consume: %s; missing: %s; not shifted by the consumed amount: %s' % (sorted('.'.join(o) for o in written), ['.'.join(o) for o in missing], ['.'.join(o) for o in wrong]))
     R.floor('UNIT-3', 3)
+    # ---------------- UNIT-3b: FASTQ — valid offsets are shifted, the others recomputed (exhaustive over RecordPos)
+    R.rule('UNIT-3b', 'FASTQ: for every part p in which a record search can be interrupted, the compaction shifts exactly the line offsets that are valid at p (those the search assigned before stopping at p) and the resumed search recomputes all the others')
+    unit3b(prog, R)
     # ---------------- EPOS-6: the line counter moves with the byte counter
     R.rule('EPOS-6', 'the file line counter is advanced in the same function and on the same paths as the file byte offset (the advance over a record: +4 lines for FASTQ, + number of line offsets for FASTA); apart from that it is only initialised at the first record and copied by seek')
     from fsm import Interp
@@ -415,3 +418,57 @@ def classify_shift(b, s, consume_term, du):
     if rv.k == 'bin' and rv.j['op'].startswith('Sub'):
         return same_amount(b, rv.ops[1], consume_term, du)
     return False
+
+
+def unit3b(prog, R):
+    from fsm import Interp, Heap, E, classify
+    try:
+        search = prog.get('fastq::Reader::search')
+        rp = [v['name'] for v in prog.adts['fastq::RecordPos']['variants']]
+    except KeyError:
+        R.anchor_missing('UNIT-3b', 'fastq::Reader::search / RecordPos')
+        return
+    it = Interp(prog, 'fastq')
+    it.track_writes = True
+    LINES = {'seq', 'sep', 'qual'}
+    h0 = Heap(state='Parsing', inc='None', complete=False, setc='old', dirty=False, pushed=False, w=(), incv='-')
+    # compaction / resumed-search functions: the reader functions taking a RecordPos argument that
+    # call consume (compaction) resp. are in the search family's callee set and assign line offsets
+    comp = [b for b in prog.bodies.values() if b.key.startswith('fastq::Reader::') and any('RecordPos' in t for t in b.local_tys[1:b.arg_count + 1])
+            and any(t.callee and t.callee.is_('std::io::BufRead::consume') for _, t in b.calls())]
+    resum = [b for b in prog.bodies.values() if b.key.startswith('fastq::Reader::') and any('RecordPos' in t for t in b.local_tys[1:b.arg_count + 1])
+             and b.local_tys[0].startswith('std::result::Result<std::option::Option<fastq::RecordPos>')]
+    if len(comp) != 1 or len(resum) != 1:
+        R.anchor_missing('UNIT-3b', 'compaction function (found %d) / resumed line search (found %d)' % (len(comp), len(resum)))
+        return
+    comp, resum = comp[0], resum[0]
+    # valid(p): offsets assigned by the fresh search before it stops at p
+    valid = {}
+    for (rv, hp) in it.run_fn(search, h0.copy(), [('rself',)]):
+        if classify(rv) == 'Ok' and hp.get('incv') in rp:
+            w = set(f for f, k in hp.get('w', ()) if f in LINES)
+            valid.setdefault(hp['incv'], set()).update(w)
+    for p in rp:
+        if p not in valid:
+            R.add('UNIT-3b', search, 'stage:%s' % p, False, site(search, search.span['lo']), 'the fresh search never stops in part %s (cannot determine which offsets are valid there)' % p)
+            continue
+        arg = E('fastq::RecordPos', p)
+        hp_in = h0.copy()
+        hp_in['inc'] = 'Some'
+        shifted, other = set(), set()
+        outs = it.run_fn(comp, hp_in.copy(), [('rself',), arg])
+        for (rv, hp) in outs:
+            for f, k in hp.get('w', ()):
+                if f in LINES:
+                    (shifted if k in ('shift', 'zero') else other).add(f)
+        start_ok = all(any(f == 'pos.0' and k == 'zero' for f, k in hp.get('w', ())) for (rv, hp) in outs) and bool(outs)
+        recomputed = set()
+        for (rv, hp) in it.run_fn(resum, hp_in.copy(), [('rself',), arg]):
+            for f, k in hp.get('w', ()):
+                if f in LINES and k == 'set':
+                    recomputed.add(f)
+        ok = shifted == valid[p] and not other and recomputed >= (LINES - valid[p]) and start_ok
+        R.add('UNIT-3b', comp, 'stage:%s' % p, ok, site(comp, comp.span['lo']),
+              'stopped in %s: valid %s; compaction shifts %s (record start := 0: %s); resumed search recomputes %s' % (
+                  p, sorted(valid[p]), sorted(shifted), start_ok, sorted(recomputed)))
+    R.floor('UNIT-3b', 4)
